@@ -203,6 +203,42 @@ def _bound_roles(col, rule="C08.R2"):
                 other.append(f"{S.show(b, False)} in {S.show(r.value)[:120]}")
     col.add(rule, "Table._get_row_indices#bounds-only-compared-with-the-column", not other, sx.loc(sx.fn),
             "in a value range the bounds are used for nothing but the element-wise comparisons with the column", "; ".join(other))
+    # the four cases (start given or not) x (stop given or not), decided exactly: under each case that can reach a return of the
+    # value-range branch, the bounds compared there are the bounds that are given
+    def ev3(c, A, B):
+        """three-valued evaluation of a condition over the atoms A = `start is None`, B = `stop is None`"""
+        for b, val in ((start, A), (stop, B)):
+            if c == ("cmp", "is", b, ("const", "None")):
+                return val
+            if c == ("cmp", "is not", b, ("const", "None")):
+                return not val
+        if c[:2] == ("uop", "not"):
+            v = ev3(c[2], A, B)
+            return None if v is None else not v
+        if c[:1] == ("bool",):
+            vs = [ev3(x, A, B) for x in c[2]]
+            if c[1] == "and":
+                return False if False in vs else (None if None in vs else True)
+            return True if True in vs else (None if None in vs else False)
+        return None
+    covered = set()
+    for r in rets:
+        cs = sx.conds(r.nid)
+        if region not in cs:
+            continue
+        compared = {b for s_ in S.subterms(r.value) if s_[:1] == ("cmp",) and s_[1] in ORDERING for b in (start, stop) if b in (s_[2], s_[3])}
+        for A in (True, False):
+            for B in (True, False):
+                if any(ev3(c, A, B) is False for c in cs):
+                    continue
+                covered.add((A, B))
+                given = {b for b, isnone in ((start, A), (stop, B)) if not isnone}
+                col.add(rule, f"Table._get_row_indices#range-case:start-{'absent' if A else 'given'},stop-{'absent' if B else 'given'}", compared == given, sx.loc(r),
+                        "in a value range lo:hi:'col' the column is compared with exactly the bounds that are given (both: lo <= col <= hi; "
+                        "one: that side only; none: every row)", f"compares {sorted(S.show(b, False) for b in compared)}: {S.show(r.value)[:80]}")
+    if len(covered) != 4:
+        col.add(rule, "Table._get_row_indices#range-cases-all-handled", False, sx.loc(sx.fn),
+                "each combination of given/absent bounds reaches a return of the value-range branch", f"handled: {sorted(covered)}")
     # np.where(mask) is a 1-tuple of position arrays: the positions are its element 0
     nw = 0
     for r in rets:
@@ -465,7 +501,36 @@ def _name_spans(col, rule="C08.R7"):
                 "span ends given as names resolve through _get_row_index (name::count<<offset forms included)", "")
 
 
+def _name_span_guards(col, rule="C08.R7"):
+    """an end of a name span is resolved exactly when it is given, by the index resolver when the span is on the index column (no step or
+    step == index) and by the column search otherwise"""
+    sx, row, start, stop, step = _selector(col)
+    NONE = ("const", "None")
+    on_index = {("cmp", "is", step, NONE), ("cmp", "==", step, INDEX)}
+    for ev in sx.of_kind("call"):
+        t = ev.term
+        if not (t[:1] == ("call",) and t[1][:1] == ("attr",) and t[1][1] == S.SELF and t[1][2] in ("_get_row_index", "_get_row_where_col") and t[2]):
+            continue
+        end = t[2][-1]
+        if end not in (start, stop):
+            continue
+        cs = sx.conds(ev.nid)
+        given, absent = ("cmp", "is not", end, NONE), ("cmp", "is", end, NONE)
+        if given in cs or absent in cs:
+            col.add(rule, f"Table._get_row_indices#span-end-resolved-when-given:{t[1][2]}({S.show(end, False)})", given in cs, sx.loc(ev),
+                    "an end of a name span is resolved when it is given (an absent end stays None: open span)", str([S.show(c) for c in cs][:3]))
+        routing = [c for c in cs if (c[:2] == ("bool", "or") and set(c[2]) == on_index)]
+        anti = [c for c in cs if c in (("cmp", "is not", step, NONE), ("cmp", "!=", step, INDEX))]
+        if routing or anti:
+            want_index = t[1][2] == "_get_row_index"
+            col.add(rule, f"Table._get_row_indices#span-on-{'index' if want_index else 'other'}-column:{S.show(end, False)}",
+                    bool(routing) == want_index and (len(anti) == 2) == (not want_index), sx.loc(ev),
+                    "a:b (or a:b:<index column>) resolves the names on the index column, a:b:'col' searches that column", str([S.show(c) for c in cs][:3]))
+
+
 def check(col: Collector):
+    with col.rule():
+        _name_span_guards(col)
     with col.rule():
         _none_operands(col)
     with col.rule():
